@@ -373,6 +373,48 @@ def run_mode(strategy):
     return run
 
 
+def grid_cases():
+    """The complete product of the discrete options (method x data type x
+    encoding x dataset type x outside value x storage layout x channels) on
+    one small dataset whose sizes are odd on two axes."""
+    accs = [
+        {"type": "sharded", "strategy": "in memory", "bits": [1, 1, 0]},
+        {"type": "sharded", "strategy": "on disk", "bits": [0, 2, 1]},
+        {"type": "file", "flat": False, "gzip": True, "compresslevel": 1},
+        {"type": "file", "flat": True, "gzip": False},
+        {"type": "file", "flat": False, "gzip": False}]
+    out = []
+    k = 0
+    for method in ("average", "majority", "stride", "auto"):
+        for dtype in DTYPES:
+            for enc in ("raw", "compressed_segmentation"):
+                if enc != "raw" and dtype not in ("uint32", "uint64"):
+                    continue
+                for typ in ("image", "segmentation"):
+                    for outside in (None, 0, 255):
+                        for acc in accs:
+                            k += 1
+                            out.append({
+                                "method": method, "outside": outside,
+                                "dtype": dtype, "channels": 1 + k % 2,
+                                "encoding": enc, "block": [2, 2, 2],
+                                "type": typ, "acc": acc, "seed": k,
+                                "mode": "generated", "size": [5, 4, 3],
+                                "ratios": [1, 1, 1 + k % 2], "target": 2,
+                                "max_scales": None})
+    return out
+
+
+def run_grid(ctx, n):
+    def check(ctx, case):
+        r = check_case(ctx, case)
+        ctx.record(case, nontrivial(case) and not r["error"], [
+            case["method"], case["dtype"], case["encoding"],
+            "type." + case["type"], "outside.%s" % case["outside"],
+            "error" if r["error"] else "computed"])
+    ctx.run_grid(grid_cases(), check)
+
+
 @st.composite
 def large_cases(draw):
     """Volumes beyond 64^3 voxels (odd sizes, several chunks of 32+)."""
@@ -433,5 +475,7 @@ SUBS = [
         thorough=8000, min_per_shard=10),
     Sub("large", run_mode(large_cases()), replay, quick=12, thorough=300,
         shards=4),
+    Sub("option_grid", run_grid, replay, quick=1, thorough=1, shards=14,
+        sweep=True),
     Sub("huge", run_huge, replay, quick=1, thorough=3, shards=1),
 ]
